@@ -204,6 +204,7 @@ def oracle(case):
 		da = _dt.datetime(1970, 1, 1) + _dt.timedelta(seconds=a)
 		exp += ' %s %d 1 %s %d' % (da.isoformat(), a, '-'.join(str(v) for v in (da.year, da.month, da.day, da.hour, da.minute, da.second)), a)
 		exp += ' %d%d%d %d%d%d' % (a < b, a > b, a == b, a < b, a > b, a == b)
+		exp += (' %d%d%d%d' % (a == b, a != b, a < b, a > b)) * 9
 		if base[0] != exp:
 			return {'what': 'date comparison disagrees with comparison of the instants', 'a': a, 'b': b, 'got': base[0], 'expected': exp, 'finding': None}
 	return None
